@@ -195,9 +195,11 @@ class Prov:
                 # locals that are also written field-wise or through &mut: value not a pure function of defs
                 if not trees:
                     t = ("path", ("local", l), ())
+                elif l in self.d.partial:
+                    t = ("phi", tuple(trees + [("path", ("local", l), ())]))
                 else:
-                    t = ("phi", tuple(trees + [("path", ("local", l), ())])) if len(trees) >= 1 and l in self.d.partial else (
-                        trees[0] if len(trees) == 1 else ("phi", tuple(trees)))
+                    # mutated through a &mut borrow: the defining expression is not its value any more
+                    t = ("path", ("local", l), ())
             elif not trees:
                 t = ("path", ("local", l), ())
             elif len(trees) == 1:
